@@ -60,14 +60,28 @@ def t_large(*a, **k):
     return ['large', k.get('uid'), 'x' * 70000]
 
 
-TARGETS = {'echo': t_echo, 'slowecho': t_echo, 'mutate': t_mutate, 'none': t_none, 'falsy': t_falsy, 'large': t_large, 'raise_on': t_raise_on}
+def t_huge(*a, **k):
+    # far beyond a pipe buffer and a TCP segment; arguments of that size are digested, not echoed
+    import hashlib
+    return ['huge', k.get('uid'), [hashlib.sha1(x.encode()).hexdigest() if isinstance(x, str) and len(x) > 1000 else x for x in a], 'y' * 400000]
+
+
+TARGETS = {'huge': t_huge, 'echo': t_echo, 'slowecho': t_echo, 'mutate': t_mutate, 'none': t_none, 'falsy': t_falsy, 'large': t_large, 'raise_on': t_raise_on}
+
+
+def shrink(v):
+    """Huge payloads are logged and compared through their length and digest."""
+    import hashlib
+    if isinstance(v, (list, tuple)) and len(v) == 4 and v[0] == 'huge' and isinstance(v[3], str):
+        return ['huge', v[1], v[2], ['len', len(v[3]), hashlib.sha1(v[3].encode()).hexdigest()]]
+    return v
 
 
 def model_value(tname, defaults, default_kw, extra, extra_kw):
     merged = list(extra) + list(defaults[len(extra):])
     kw = dict(default_kw)
     kw.update(extra_kw)
-    return TARGETS[tname](*copy.deepcopy(merged), **copy.deepcopy(kw))
+    return shrink(TARGETS[tname](*copy.deepcopy(merged), **copy.deepcopy(kw)))
 
 
 # ---------------------------------------------------------------- case
@@ -142,13 +156,13 @@ def case(spec, log):
                 log.ev('op', i=i, op='enq', outcome=('ok' if r is None else 'hang' if r is HANG else 'raised:' + type(r.exc).__name__))
             elif name == 'next':
                 r = bounded('next', lambda: w.next_result(), 30)
-                log.ev('op', i=i, op='next', outcome=('hang' if r is HANG else 'raised:' + type(r.exc).__name__ if isinstance(r, Raised) else 'value'), value=(None if r is HANG or isinstance(r, Raised) else r))
+                log.ev('op', i=i, op='next', outcome=('hang' if r is HANG else 'raised:' + type(r.exc).__name__ if isinstance(r, Raised) else 'value'), value=(None if r is HANG or isinstance(r, Raised) else me.shrink(r)))
             elif name == 'iter':
                 r = bounded('iter', lambda: list(w.results_iter(op[1])), 30)
-                log.ev('op', i=i, op='iter', n=op[1], outcome=('hang' if r is HANG else 'raised:' + type(r.exc).__name__ if isinstance(r, Raised) else 'values'), value=(None if r is HANG or isinstance(r, Raised) else r))
+                log.ev('op', i=i, op='iter', n=op[1], outcome=('hang' if r is HANG else 'raised:' + type(r.exc).__name__ if isinstance(r, Raised) else 'values'), value=(None if r is HANG or isinstance(r, Raised) else [me.shrink(x) for x in r]))
             elif name == 'call':
                 r = bounded('call', lambda: w.call(*op[1], **op[2]), 30)
-                log.ev('op', i=i, op='call', outcome=('hang' if r is HANG else 'raised:' + type(r.exc).__name__ if isinstance(r, Raised) else 'value'), value=(None if r is HANG or isinstance(r, Raised) else r))
+                log.ev('op', i=i, op='call', outcome=('hang' if r is HANG else 'raised:' + type(r.exc).__name__ if isinstance(r, Raised) else 'value'), value=(None if r is HANG or isinstance(r, Raised) else me.shrink(r)))
             elif name == 'close':
                 r = bounded('close', lambda: w.close(), 30)
                 sched['closed'] = True
@@ -167,7 +181,7 @@ def case(spec, log):
         if r is HANG:
             return {'fatal': 'final wait hang'}
         r = bounded('drain', lambda: list(w.results_iter()), 30)
-        log.ev('drain', outcome=('hang' if r is HANG else 'raised' if isinstance(r, Raised) else 'values'), value=(None if r is HANG or isinstance(r, Raised) else r))
+        log.ev('drain', outcome=('hang' if r is HANG else 'raised' if isinstance(r, Raised) else 'values'), value=(None if r is HANG or isinstance(r, Raised) else [me.shrink(x) for x in r]))
         r = bounded('after_end', lambda: w.next_result(), 15)
         log.ev('after_end', empty=(isinstance(r, Raised) and isinstance(r.exc, queue.Empty)), hang=(r is HANG))
         r = bounded('after_end2', lambda: list(w.results_iter()), 15)
@@ -191,7 +205,7 @@ def gen_history(r, cls):
     nd = r.randint(0, 3)
     defaults = [r.choice(VALS) for _ in range(nd)]
     default_kw = {k: r.choice(VALS) for k in r.sample(['p', 'q'], r.randint(0, 2))}
-    target = r.choice(['echo', 'echo', 'echo', 'mutate', 'mutate', 'none', 'falsy', 'large'])
+    target = r.choice(['echo', 'echo', 'echo', 'mutate', 'mutate', 'none', 'falsy', 'large', 'huge'])
     ops = []
     uid = 0
     outstanding = 0
@@ -216,6 +230,8 @@ def gen_history(r, cls):
         if c in ('enq', 'call', 'enq_closed'):
             arity = r.choice([0, 1, nd, nd, nd + 1, max(0, nd - 1)])
             extra = [r.choice(VALS) for _ in range(arity)]
+            if target == 'huge' and extra and r.random() < 0.5:
+                extra[0] = 'z' * 300000
             extra_kw = {k: r.choice(VALS) for k in r.sample(['p', 'q', 's'], r.randint(0, 2))}
             uid += 1
             extra_kw['uid'] = uid
@@ -223,7 +239,7 @@ def gen_history(r, cls):
                 ops.append(['enq', extra, extra_kw, 'expect-closed'])
                 uid -= 1
                 continue
-            if target == 'large' and unread_large >= 0 and c == 'enq' and outstanding >= 1:
+            if target in ('large', 'huge') and unread_large >= 0 and c == 'enq' and outstanding >= 1:
                 # documented precondition of wait(): keep unread result bytes below the pipe capacity
                 ops.append(['next'])
                 outstanding -= 1
@@ -240,7 +256,7 @@ def gen_history(r, cls):
         elif c == 'close':
             ops.append(['close'])
             closed = True
-    if target == 'large':
+    if target in ('large', 'huge'):
         while outstanding:
             ops.append(['next'])
             outstanding -= 1
@@ -355,7 +371,7 @@ def run(tier):
     thorough = tier == 'thorough'
     chk = Check('C05', 'exploration', tier,
                 'seeded histories (<= 8 enqueues) over {enqueue(args, kwargs), next_result, results_iter(n), call, close, wait, enqueue-after-close} x default args (list or tuple, length 0-3) x default kwargs '
-                'x per-enqueue arity (fewer/equal/more than defaults) x targets (echo, argument-mutating, None/falsy/70 KB results) x thread/process/remote; every enqueue carries a unique id; '
+                'x per-enqueue arity (fewer/equal/more than defaults) x targets (echo, argument-mutating, None/falsy/70 KB/400 KB results, 300 KB arguments) x thread/process/remote; every enqueue carries a unique id; '
                 'a share of the histories reads after close() under worst-case scheduling of the consumer (held after each liveness check / endpoint probe until the worker is gone); oracle = sequential model (merge rule, pristine defaults); distinct non-trivial = distinct histories with >= 1 enqueue')
     r = rng('c05')
     n = 700 if thorough else 50
